@@ -1092,6 +1092,51 @@ fn show_soft(dump: &Dump) -> String {
     }
 }
 
+/// the register accessors of one context: `valid_registers()`, `get_register` of every general-purpose
+/// register, `register_size()`, `format_register` of the first and the last general-purpose register
+fn show_regs_of(c: Option<std::borrow::Cow<MinidumpContext>>) -> String {
+    let Some(c) = c else { return "-".into() };
+    let (kind, _, _) = ctx_kind(&c);
+    let valid: Vec<(&'static str, u64)> = c.valid_registers().collect();
+    let names = c.general_purpose_registers();
+    let got: Vec<Option<u64>> = names.iter().map(|n| c.get_register(n)).collect();
+    let mut fmt = Vec::new();
+    if let (Some(a), Some(b)) = (names.first(), names.last()) {
+        fmt.push(c.format_register(a));
+        fmt.push(c.format_register(b));
+    }
+    let size = c.register_size();
+    meter::unmetered(|| {
+        format!(
+            "{}:{}|{}|{}|{}",
+            kind,
+            valid.iter().map(|(n, v)| format!("{n}={v:x}")).collect::<Vec<_>>().join(","),
+            got.iter().map(|v| v.map(|x| format!("{x:x}")).unwrap_or_else(|| "none".into())).collect::<Vec<_>>().join(","),
+            size,
+            fmt.join(",")
+        )
+    })
+}
+
+fn show_regs(dump: &Dump) -> String {
+    let (Ok(l), Ok(sys)) = (dump.get_stream::<MinidumpThreadList>(), dump.get_stream::<MinidumpSystemInfo>()) else { return "-".into() };
+    let mut out = meter::unmetered(|| String::from("ok["));
+    for t in &l.threads {
+        let r = show_regs_of(t.context(&sys, None));
+        meter::unmetered(|| {
+            out.push_str(&r);
+            out.push(';');
+        });
+    }
+    out.push(']');
+    out
+}
+
+fn show_exc_regs(dump: &Dump) -> String {
+    let (Ok(x), Ok(sys)) = (dump.get_stream::<MinidumpException>(), dump.get_stream::<MinidumpSystemInfo>()) else { return "-".into() };
+    show_regs_of(x.context(&sys, None))
+}
+
 // ------------------------------------------------------------------------------ phase B (sweep)
 
 fn sweep(dump: &Dump, o: &mut Out) {
@@ -1438,6 +1483,13 @@ fn run_case(all: &[u8], shared: &Arc<meter::Shared>) -> CaseOut {
                             // apart here; the generator's TEB-region cases cover it
                         }
                     }
+                    if (tag == "regs" || tag == "xregs") && s != "-" {
+                        for k in ["X86:", "Amd64:", "Ppc:", "Ppc64:", "Sparc:", "Arm:", "Arm64:", "OldArm64:", "Mips:"] {
+                            if s.contains(&format!("[{k}")) || s.contains(&format!(";{k}")) || s.starts_with(k) {
+                                o.tags.push(format!("{tag}-ctx={}", k.trim_end_matches(':')));
+                            }
+                        }
+                    }
                     if tag == "uni" && s != "-" {
                         o.tags.push(format!("uni={}", s.split('/').next().unwrap_or("").replace(':', "-")));
                     }
@@ -1488,6 +1540,8 @@ fn run_case(all: &[u8], shared: &Arc<meter::Shared>) -> CaseOut {
             addx(&mut o, "ids", "MinidumpModule::{debug_identifier, code_identifier, debug_file, version, print}", &|| show_module_ids(&dump));
             addx(&mut o, "uids", "MinidumpUnloadedModule::code_identifier", &|| show_unloaded_ids(&dump));
             addx(&mut o, "soft", "get_stream::<MinidumpSoftErrors>", &|| show_soft(&dump));
+            addx(&mut o, "regs", "MinidumpContext::{valid_registers, get_register, format_register, register_size} (threads)", &|| show_regs(&dump));
+            addx(&mut o, "xregs", "MinidumpContext::{valid_registers, get_register, format_register, register_size} (exception)", &|| show_exc_regs(&dump));
             let gm = o
                 .guard("get_memory", || match dump.get_memory() {
                     Some(UnifiedMemoryList::Memory64(_)) => "mem64",
